@@ -110,6 +110,16 @@ def make_requests(ctx):
     dh_text = gen.render(dh)
     texts.append(dh_text)
 
+    # one base whose well cost goes through the user-priced SIMPLE correlation (option 5 + all-in cost per metre): an option
+    # object that a run re-parameterises is process-global state
+    sc = gen.synth_case(rng, cells[0], addons=False, overpressure=False, sdac=False)
+    for kk in ('Well Drilling and Completion Capital Cost', 'Total Capital Cost', 'Injection Well Drilling and Completion Capital Cost'):
+        gen.cdel(sc, kk)
+    gen.cset(sc, 'Well Drilling Cost Correlation', 5)
+    gen.cset(sc, 'All-in Vertical Drilling Costs', 1500)
+    simple_text = gen.render(sc)
+    texts.append(simple_text)
+
     def tweak(t):
         # a version that differs from t in one or two physical parameters only (whichever the text sets), by a few percent:
         # anything keyed on *some* of the inputs shows when the others change
@@ -135,6 +145,11 @@ def make_requests(ctx):
         v1b = t + f'\nGradient 1, {60 + 3 * i}\n'             # same length as v1: only the content differs
         v2 = t + f'\nPlant Lifetime, {11 + i}\nUtilization Factor, 0.8{i}\n'
         reqs[f'q{i}'] = [t, v1, v1b, v2, tweak(t), tweak(t)]
+        if t is simple_text:
+            def cost(n, t=t):
+                return '\n'.join(('All-in Vertical Drilling Costs, %d' % n) if ln.split(',')[0].strip() == 'All-in Vertical Drilling Costs' else ln
+                                 for ln in t.split('\n'))
+            reqs[f'q{i}'] = [t, cost(900), cost(2500), v2, tweak(t), cost(1500)]
         if t is dh_text:
             def div(n, t=t):
                 return '\n'.join(('US Census Division, %d' % n) if ln.split(',')[0].strip() == 'US Census Division' else ln for ln in t.split('\n'))
